@@ -50,12 +50,14 @@ def job(a):
         cases = []
         # cases a module marks as relevant to build options (not counted against the per-module limit)
         if wid == 0 and hasattr(mod, 'c14_priority'):
-            for spec in mod.c14_priority(random.Random(sd ^ 0xc14), tier):
+            import inspect
+            pr = mod.c14_priority(random.Random(sd ^ 0xc14), tier, wv.env) if len(inspect.signature(mod.c14_priority).parameters) >= 3 else mod.c14_priority(random.Random(sd ^ 0xc14), tier)
+            for spec in pr:
                 case = mod.build(spec, wv.env)
                 if case is not None: case.spec = spec; cases.append(case)
         limit += len(cases)
         for spec in mod.specs(wv.rng, 'quick', wid, nw, wv.env):
-            if spec[0] in ('sweep', 'battery', 'hugeidx'): continue
+            if spec[0] in ('sweep', 'battery', 'hugeidx', 'sieve', 'slowlc'): continue
             case = mod.build(spec, wv.env)
             if case is None: continue
             case.spec = spec
